@@ -743,13 +743,23 @@ def source_analysis(root):
             if id(v) in defined and id(v) not in seen:
                 ordered = False
 
+    def f_(f):
+        # one cloner per function: the body, then the default graphs of its attribute declarations
+        g_(f.graph)
+        for a in f.attributes.values():
+            if not a.is_ref() and a.type == ir.AttributeType.GRAPH:
+                g_(a.value)
+            elif not a.is_ref() and a.type == ir.AttributeType.GRAPHS:
+                for x in a.value:
+                    g_(x)
+
     if isinstance(root, ir.Model):
         g_(root.graph)
         for f in root.functions.values():
             seen.clear()
-            g_(f.graph)
+            f_(f)
     elif isinstance(root, ir.Function):
-        g_(root.graph)
+        f_(root)
     else:
         g_(root)
     return defined, outer, ordered
@@ -1057,7 +1067,9 @@ def gen_spec_failing_after_nested(rng):
                     {"name": sg.name("n"), "op": "If", "inputs": [va["name"]], "outs": [sg.value("v")],
                      "attrs": [{"name": "then_branch", "kind": "graph", "value": g2}]}]}  # fmt: skip
     g1["outputs"] = [g1["nodes"][1]["outs"][0]["name"]]
-    return {"ntensors": 3, "type_pool": [], "shape_pool": [], "nconfigs": 0, "graph": g1, "functions": [], "views": [],
+    return {"ntensors": 3, "type_pool": [gen_type(rng) for _ in range(sg.ntypes)],
+            "shape_pool": [gen_shape(rng) for _ in range(sg.nshapes)], "nconfigs": 0, "graph": g1,
+            "functions": [], "views": [],
             "target": {"kind": "subgraph", "name": "g2", "allow": rng.random() < 0.85}}  # fmt: skip
 
 
